@@ -633,7 +633,10 @@ static void DecodeEmulOneToTwo(Word Code) {
         else if ((DestParts.Mode == eModeRegDisp) && (DestParts.Part == RegPC)) {
             LongWord NewDist = DestParts.Val - 2;
 
-            if ((NewDist & 0x8000) != (DestParts.Val & 0x8000)) {
+            /* only the step from the most negative displacements wraps around;
+               going from 0 or 1 to -2 or -1 is an ordinary change of sign */
+
+            if ((DestParts.Val & 0x8000) && !(NewDist & 0x8000)) {
                 WrError(ErrNum_DistTooBig);
                 return;
             }
@@ -733,7 +736,9 @@ static void DecodeEmulOneToTwoX(Word Code) {
         else if ((DestParts.Mode == eModeRegDisp) && (DestParts.Part == RegPC)) {
             LongWord NewDist = DestParts.Val - 2;
 
-            if ((NewDist & 0x8000) != (DestParts.Val & 0x8000)) {
+            /* 20 bit displacement: only the step from the most negative values wraps */
+
+            if ((DestParts.Val & 0x80000) && !(NewDist & 0x80000)) {
                 WrError(ErrNum_DistTooBig);
                 return;
             }
